@@ -250,6 +250,7 @@ func (x *Exec) evCall(st *State, call *ast.CallExpr) []Val {
 		packed := Val{T: x.vc.mkSlice(srt, arr, x.vc.intLit(n), isnil), Sort: srt, GoT: st0}
 		args = append(args[:min(np-1, len(args))], x.name("varargs", packed))
 	}
+	rawCopy := append([]Val{}, x.rawArgs...) // interior pointers passed as interface{} are copied out too
 	var results []Val
 	if fn == nil {
 		// call through a function value: a "fnvalue" contract for the field / parameter, else unknown effect
@@ -266,7 +267,7 @@ func (x *Exec) evCall(st *State, call *ast.CallExpr) []Val {
 	if recvLV != nil && recvPtrCopy != nil {
 		x.storeLV(st, recvLV, x.deref(st, *recvPtrCopy, recvLV.typ))
 	}
-	for _, a := range args {
+	for _, a := range append(append([]Val{}, args...), rawCopy...) {
 		if lv, ok := x.prog.interior[a.T]; ok {
 			x.storeLV(st, lv, x.deref(st, a, lv.typ))
 			delete(x.prog.interior, a.T)
@@ -943,9 +944,9 @@ func (x *Exec) applyContractSig(st *State, call *ast.CallExpr, sig *types.Signat
 			}
 			at := x.typeOf(call.Args[i])
 			if pt, ok := at.Underlying().(*types.Pointer); ok {
-				srt := x.vc.sortOf(pt.Elem())
-				x.heapFor(st, srt)
-				x.havocKey(st, heapKey(srt))
+				hk, _ := x.heapKeyT(pt.Elem())
+				x.heapFor(st, pt.Elem())
+				x.havocKey(st, hk)
 			}
 		}
 	}
@@ -1047,9 +1048,9 @@ func (x *Exec) applyModifies(st *State, c *Contract) {
 			if t == nil {
 				panic(unsupported("modifies: unknown type " + tn))
 			}
-			srt := x.vc.sortOf(t)
-			x.heapFor(st, srt)
-			x.havocKey(st, heapKey(srt))
+			hk, _ := x.heapKeyT(t)
+			x.heapFor(st, t)
+			x.havocKey(st, hk)
 		default:
 			if g, ok := x.prog.specs.Ghosts[m]; ok {
 				x.ghostVal(st, g)
